@@ -40,3 +40,9 @@ m('c01-quat-stored-before-second-rotation', 'mofun/mofun.py', '            quats
 m('c01-no-recheck', 'mofun/mofun.py', '            if np.allclose(atom_positions, chk_pattern.positions, rtol=0, atol=atol):\n                good_indices.append(i)', '            good_indices.append(i)', 'C01', note='mirror images and symmetric mis-orderings reported')
 m('c01-mod-wrong', 'mofun/mofun.py', 'match_index_tuples_in_uc = [tuple([near_indices[m] % len(structure) for m in match]) for match in good_match_index_tuples]', 'match_index_tuples_in_uc = [tuple([near_indices[m] % (len(structure) + 1) for m in match]) for match in good_match_index_tuples]', 'C01')
 m('c01-harmless-rename', 'mofun/mofun.py', '            chk_pattern = pattern.copy()\n            chk_pattern.positions = q.apply(chk_pattern.positions)\n            chk_pattern.translate(atom_positions[axisp1_idx])', '            chk_pattern = pattern.copy()\n            chk_pattern.positions = q.apply(chk_pattern.positions)\n            chk_pattern.translate(atom_positions[axisp1_idx])\n            unused_debug_value = 0', 'C01', 'pass')
+# ---- C07
+m('c07-and-ignore', 'mofun/mofun.py', 'if (to_delete.isdisjoint(to_delete_linker) or ignore_atoms_should_not_be_deleted_twice):', 'if (to_delete.isdisjoint(to_delete_linker) and not ignore_atoms_should_not_be_deleted_twice):', 'C07')
+m('c07-retained-not-excluded', 'mofun/mofun.py', 'to_delete_linker = set(match_indices[m_i]) - set(structure_index_map.values())', 'to_delete_linker = set(match_indices[m_i])', 'C07')
+m('c07-overwrite-set', 'mofun/mofun.py', '                to_delete |= set(to_delete_linker)', '                to_delete = set(to_delete_linker)', 'C07')
+m('c07-silent', 'mofun/mofun.py', '                raise AtomsShouldNotBeDeletedTwice()', '                pass', 'C07')
+m('c07-keys-instead-of-values', 'mofun/mofun.py', 'set(match_indices[m_i]) - set(structure_index_map.values())', 'set(match_indices[m_i]) - set(structure_index_map.keys())', 'C07')
